@@ -55,7 +55,7 @@ func protect(sa *security.IKESAKey, m *message.IKEMessage, role message.Role, rn
 			if err != nil {
 				return "", err
 			}
-			return hx(b), nil
+			return hxOwn(b), nil
 		})
 	})
 	return
